@@ -117,7 +117,7 @@ UM_ASSUME = [
 ]
 
 
-def _um(prop, what="", runs_quick=1600):
+def _um(prop, what="", runs_quick=4000):
 	from engines.um import ENGINE
 	return ENGINE, dict(
 		level="exploration", runs_quick=runs_quick, budget_quick_s=55,
@@ -137,7 +137,7 @@ def _c14():
 	real["real"] = real["real"] + ["data_dump.DATADumpFile readers on damaged capture files", "data_if.DATAInterface.recv_rx_msg (MS-side receiver)",
 		"TxMsg/RxMsg.parse_msg fed directly"]
 	return ENGINE, dict(
-		level="exploration", runs_quick=1600, budget_quick_s=55,
+		level="exploration", runs_quick=4000, budget_quick_s=55,
 		rule="one run = either (a) a valid fake_trx session (as in C05/C10) with hostile datagrams injected at seeded points into control "
 			"and data sockets (non-UTF-8, non-numeric, missing/huge arguments, HSN out of range, embedded NULs, over-long lines, random "
 			"octets, truncated / bit-flipped / wrong-version TRXD, foreign senders) and octets fed straight into TxMsg/RxMsg.parse_msg and "
